@@ -257,9 +257,9 @@ V('c07-duplicate-letter', ['C07'], [(S, """            "G0 F{f} X{x} Y{y}".forma
 V('c07-setter-str', ['C07'], [(G, "                    key += plainDecimal(val)", "                    key += str(val)")])
 
 # ---------------------------------------------------------------- C08
-V('c08-g20-three-axes', ['C08'], [(PO, """        self.Z_AXIS.setUnitMultiplier(unitMultiplier)
+V('c08-g20-three-axes', ['C08', 'C01', 'C02'], [(PO, """        self.Z_AXIS.setUnitMultiplier(unitMultiplier)
         self.E_AXIS.setUnitMultiplier(unitMultiplier)""", """        self.Z_AXIS.setUnitMultiplier(unitMultiplier)""")])
-V('c08-g91-skips-z', ['C08'], [(PO, """        self.Y_AXIS.setAbsoluteMode(absolute)
+V('c08-g91-skips-z', ['C08', 'C01', 'C02'], [(PO, """        self.Y_AXIS.setAbsoluteMode(absolute)
         self.Z_AXIS.setAbsoluteMode(absolute)""", """        self.Y_AXIS.setAbsoluteMode(absolute)""")])
 V('c08-logicaltonative-drops-homeoffset', ['C08', 'C03'], [(A, """            value += self.offset + self.homeOffset""", """            value += self.offset""")])
 V('c08-logical-passed-to-region-test', ['C08', 'C01'], [(S, """            if (not anyExcluded and self.isPointExcluded(x, y)):""", """            if (not anyExcluded and self.isPointExcluded(xyPairs[index], xyPairs[index + 1])):""")])
@@ -627,14 +627,20 @@ V('n-arc-offsets-local-table', ['C16', 'C19'], [(H, """        radius = None
 V('c13-delete-compares-text', ['C13'], [(S, """            if (self.excludedRegions[index].id == regionId):
                 del self.excludedRegions[index]""", """            if (str(self.excludedRegions[index].id) == str(regionId)):
                 del self.excludedRegions[index]""")])
-V('c08-home-resets-mode', ['C08'], [(A, """        self.current = 0
+V('c08-home-resets-mode', ['C08', 'C01', 'C02'], [(A, """        self.current = 0
         self.offset = 0
 """, """        self.current = 0
         self.offset = 0
         self.absoluteMode = True
 """)])
-V('c08-units-clear-offset', ['C08'], [(A, """        self.unitMultiplier = float(unitMultiplier)
-""", """        self.unitMultiplier = float(unitMultiplier)
+V('c08-units-clear-offset', ['C08', 'C01'], [(A, """        \"\"\"
+        self.unitMultiplier = float(unitMultiplier)
+""", """        \"\"\"
+        self.unitMultiplier = float(unitMultiplier)
+        self.offset = 0
+""")])
+V('c03-copy-constructor-drops-offset', ['C03', 'C08'], [(A, """            self.unitMultiplier = float(unitMultiplier)
+""", """            self.unitMultiplier = float(unitMultiplier)
         self.offset = 0
 """)])
 V('c20-code-kept-when-no-command', ['C20', 'C18'], [(G, """        else:
@@ -716,3 +722,43 @@ V('n-matches-returns-bool', ['C14', 'C06'], [(AT, """            return (self.pa
 V('c15-active-after-done-while-excluding', ['C15', 'C11'], [(P, """            self._logger.info("Printing stopped: event=%s", event)
             self._activePrintJob = False""", """            self._logger.info("Printing stopped: event=%s", event)
             self._activePrintJob = (event == Events.PRINT_DONE) and self.state.excluding""")])
+# ---------------------------------------------------------------- round 13 rules
+V('c20-class-level-pending-map', ['C20'], [(S, """    def __init__(self, logger):""", """    pendingCommands = OrderedDict()
+
+    def __init__(self, logger):"""), (S, """        self.pendingCommands = OrderedDict()""", """        self.pendingCommands.clear()""")])
+V('n-class-level-default-still-owned', ['C20', 'C10', 'C06'], [(S, """    def __init__(self, logger):""", """    pendingCommands = OrderedDict()
+
+    def __init__(self, logger):""")], neutral=True)
+V('c06-deferred-keyed-by-subcode', ['C06'], [(S, """                return self._processExtendedGcodeEntry(entry.mode, cmd, gcode)""",
+                                               """                code = gcode if (subcode is None) else "{}.{}".format(gcode, subcode)
+                return self._processExtendedGcodeEntry(entry.mode, cmd, code)""")])
+V('c09-subcode-concatenated', ['C09'], [(S, """            entry = self.extendedExcludeGcodes.get(gcode)
+            if (entry is not None):""", """            entry = self.extendedExcludeGcodes.get(gcode)
+            if ((entry is None) and subcode):
+                entry = self.extendedExcludeGcodes.get(gcode + "." + subcode)
+
+            if (entry is not None):""")])
+V('n-subcode-formatted-lookup', ['C09', 'C06'], [(S, """            entry = self.extendedExcludeGcodes.get(gcode)
+            if (entry is not None):""", """            entry = self.extendedExcludeGcodes.get(gcode)
+            if ((entry is None) and subcode):
+                self._logger.debug("no entry for %s (sub code %s)", gcode, subcode)
+
+            if (entry is not None):""")], neutral=True)
+V('c02-arc-untracked-while-disabled', ['C02', 'C14', 'C08', 'C01'], [(H, """        if (i or j):
+            xyPairs = self.planArc(x, y, i, j, clockwise)""", """        if (i or j):
+            if (not self.state.isExclusionEnabled()):
+                return None
+
+            xyPairs = self.planArc(x, y, i, j, clockwise)""")])
+V('c01-sethome-drops-unit-factor', ['C01', 'C02', 'C08'], [(A, """        self.current = 0
+        self.offset = 0
+""", """        self.__init__(0, self.homeOffset, 0.0, self.absoluteMode)
+""")])
+V('n-sethome-reinit-all-fields', ['C01', 'C08'], [(A, """        self.current = 0
+        self.offset = 0
+""", """        self.__init__(0, self.homeOffset, 0.0, self.absoluteMode, self.unitMultiplier)
+""")], neutral=True)
+V('c04-e-only-feed-command-forwarded', ['C04', 'C01'], [(S, """            returnCommands = self._processNonMove(cmd, deltaE)""", """            if (self.excluding and (deltaE == 0) and (feedRate is not None)):
+                returnCommands = [cmd]
+            else:
+                returnCommands = self._processNonMove(cmd, deltaE)""")])
